@@ -109,7 +109,14 @@ def coq_obs(o):
 
 def coq_case(W, outcome, trace, fixed=True):
     tbl = clist([clist(outcome[c]) for c in range(len(W))])
-    tr = clist(['(%s, %s)' % (coq_event(ev), coq_obs(post)) for (ev, pre, post) in trace])
+    items = []
+    for (ev, pre, post) in trace:
+        if ev[0] == 'Start':   # initialise + first _schedule, then the first loop iteration before the first wait
+            items.append('(Start, None)')
+            items.append('(Tick, Some %s)' % coq_obs(post))
+        else:
+            items.append('(%s, Some %s)' % (coq_event(ev), coq_obs(post)))
+    tr = clist(items)
     return '(%s, %s, %s, %s)' % (clist([coq_comp(d) for d in W]), cbool(fixed), tbl, tr)
 
 
